@@ -50,8 +50,9 @@ func (t *Transformer) transformStruct(ws *WireStruct, pkg *types.Package) *Kesso
 	funcLit := t.buildStructConstructor(structType, fieldInfos, ws.IsPointer)
 
 	return &KessokuProvide{
-		FuncExpr:  funcLit,
-		SourcePos: ws.Pos,
+		FuncExpr:    funcLit,
+		SourcePos:   ws.Pos,
+		Synthesized: true,
 	}
 }
 
@@ -106,8 +107,9 @@ func (t *Transformer) transformFieldsOf(wf *WireFieldsOf, pkg *types.Package) *K
 	funcLit := t.buildFieldAccessor(structType, fieldInfos)
 
 	return &KessokuProvide{
-		FuncExpr:  funcLit,
-		SourcePos: wf.Pos,
+		FuncExpr:    funcLit,
+		SourcePos:   wf.Pos,
+		Synthesized: true,
 	}
 }
 
